@@ -72,8 +72,9 @@ Definition dstep (V : variant) (host_counted : bool) (s : dstate) (o : dop) : ds
   | DClone id from =>
       match lookup id (ds_objs s), lookup from (ds_objs s) with
       | None, Some (OMem bytes _ _) =>
-          (* device.malloc(byte_size(), *this, properties()): src == NULL in modeDevice->malloc *)
-          if bytes =? 0 then (s, Nul)
+          (* device.malloc(byte_size(), *this, properties()): src == NULL in modeDevice->malloc;
+             for 0 bytes malloc returns memory() and mem.setDtype() raises "not initialized" *)
+          if bytes =? 0 then (s, Err)
           else (do_malloc host_counted s id bytes false false, Ok)
       | _, _ => (s, Nul)
       end
